@@ -20,16 +20,16 @@ const modPath = "github.com/philpearl/plenc"
 // Prog is the resolved program: syntax, types and SSA of every package of the
 // module in /repo, loaded from the current working tree on every run.
 type Prog struct {
-	Repo    string
+	Repo string
 	// what the de-extraction pre-pass did (inline.go)
 	InlineNotes []string
-	Fset    *token.FileSet
-	Pkgs    []*packages.Package // module packages only
-	ByPath  map[string]*packages.Package
-	SSA     *ssa.Program
-	SSAPkg  map[string]*ssa.Package
-	Codecs  []*CodecType
-	CodecIf *types.Interface
+	Fset        *token.FileSet
+	Pkgs        []*packages.Package // module packages only
+	ByPath      map[string]*packages.Package
+	SSA         *ssa.Program
+	SSAPkg      map[string]*ssa.Package
+	Codecs      []*CodecType
+	CodecIf     *types.Interface
 	// declaration index
 	FuncDecl map[*types.Func]*ast.FuncDecl
 	DeclPkg  map[*types.Func]*packages.Package
